@@ -23,6 +23,13 @@ func (m *List) Draw(win vaxis.Window) {
 	} else if m.index < m.offset {
 		m.offset = m.index
 	}
+	if m.offset > len(m.items) {
+		// a window without any rows, or no items
+		m.offset = len(m.items)
+	}
+	if m.offset < 0 {
+		m.offset = 0
+	}
 
 	defaultStyle := vaxis.Style{}
 	selectedStyle := vaxis.Style{Attribute: vaxis.AttrReverse}
@@ -42,6 +49,10 @@ func (m *List) Draw(win vaxis.Window) {
 
 func (m *List) Down() {
 	m.index = min(len(m.items)-1, m.index+1)
+	if m.index < 0 {
+		// no items
+		m.index = 0
+	}
 }
 
 func (m *List) Up() {
@@ -54,11 +65,19 @@ func (m *List) Home() {
 
 func (m *List) End() {
 	m.index = len(m.items) - 1
+	if m.index < 0 {
+		// no items
+		m.index = 0
+	}
 }
 
 func (m *List) PageDown(win vaxis.Window) {
 	_, height := win.Size()
 	m.index = min(len(m.items)-1, m.index+height)
+	if m.index < 0 {
+		// no items
+		m.index = 0
+	}
 }
 
 func (m *List) PageUp(win vaxis.Window) {
@@ -69,6 +88,10 @@ func (m *List) PageUp(win vaxis.Window) {
 func (m *List) SetItems(items []string) {
 	m.items = items
 	m.index = min(len(items) - 1, m.index)
+	if m.index < 0 {
+		// no items
+		m.index = 0
+	}
 }
 
 // Returns the index of the currently selected item.
